@@ -8,6 +8,20 @@ pass; demo.py must exit 1 on the patched copy and 0 on /repo; run the named chec
 meta.json / directory name; --all = every check) against the copy.  Prints a JSON summary.
 """
 import argparse, json, os, shutil, subprocess, sys, tempfile, time
+
+
+def run_check(cmd, env, limit=2400):
+    """Run a check in its own process group; kill the whole group when it exceeds `limit` seconds (rc 124)."""
+    import signal
+    p = subprocess.Popen(cmd, env=env, stdout=subprocess.PIPE, stderr=subprocess.STDOUT, text=True, start_new_session=True)
+    try:
+        out, _ = p.communicate(timeout=limit)
+        return p.returncode, out
+    except subprocess.TimeoutExpired:
+        os.killpg(p.pid, signal.SIGKILL)
+        out, _ = p.communicate()
+        return 124, (out or '') + '\nTIMEOUT after %d s' % limit
+
 V = os.path.dirname(os.path.dirname(os.path.abspath(__file__)))
 ap = argparse.ArgumentParser()
 ap.add_argument('dir'); ap.add_argument('--props'); ap.add_argument('--tier', default='quick'); ap.add_argument('--all', action='store_true')
@@ -43,11 +57,11 @@ try:
         for prop in props:
             env = dict(os.environ, VERIF_REPO=repo, VERIF_OUT=os.path.join(root, 'out'), VERIF_SEED=a.seed)
             t0 = time.time()
-            q = subprocess.run([os.path.join(V, 'check'), prop, '--tier', a.tier], env=env, stdout=subprocess.PIPE, stderr=subprocess.STDOUT, text=True)
-            sigs = [l.split('sig=')[1].split(' ')[0] for l in q.stdout.splitlines() if l.startswith('violation:')]
-            res['props'][prop] = {'rc': q.returncode, 'verdict': {0: 'missed', 1: 'caught', 2: 'harness-error'}.get(q.returncode, '?'),
+            rc, out = run_check([os.path.join(V, 'check'), prop, '--tier', a.tier], env)
+            sigs = [l.split('sig=')[1].split(' ')[0] for l in out.splitlines() if l.startswith('violation:')]
+            res['props'][prop] = {'rc': rc, 'verdict': {0: 'missed', 1: 'caught', 2: 'harness-error', 124: 'timeout'}.get(rc, '?'),
                                   'wall_s': round(time.time() - t0, 1), 'signatures': sigs[:8]}
-            if q.returncode == 2: res['props'][prop]['tail'] = q.stdout[-800:]
+            if rc in (2, 124): res['props'][prop]['tail'] = out[-800:]
 finally:
     shutil.rmtree(root, ignore_errors=True)
 print(json.dumps(res, indent=1))
